@@ -128,7 +128,7 @@ theorem finalize_starts (p : Pieces) :
     (finalize p).dirStart = startOf .dirTbl (regions p) ∧
     (finalize p).fragStart = startOf .fragIdx (regions p) ∧
     (finalize p).idStart = startOf .idIdx (regions p) ∧
-    (finalize p).exportStart = (if p.exportTbl.isSome then startOf .exportIdx (regions p) else 0) := by
+    (finalize p).exportStart = (if p.exportTbl.isSome then startOf .exportIdx (regions p) else absent64) := by
   cases h : p.exportTbl <;> rcases Nat.eq_zero_or_pos p.opt with ho | ho <;>
     simp [finalize, regions, regionLens, layFrom, startOf, lookupTable, idxLens, h, ho, List.find?] <;> omega
 
